@@ -3,7 +3,7 @@
     native OCaml types; Z, positive, N stay extracted inductives. No Extract Constant. *)
 From Coq Require Import ExtrOcamlBasic.
 From WT Require Import Base.Wrap Base.ListX Base.Bytes Model.Time Model.Ring Model.Update
-  Model.Codec Model.Handle Model.Text Model.Args Model.Cmd Model.World Model.Generate Model.Query Model.FileImage Model.GoWhisperRef Model.Lock Inst.FloatInst.
+  Model.Codec Model.Handle Model.Text Model.Args Model.Cmd Model.World Model.Generate Model.Query Model.Wire Model.Server Model.FileImage Model.GoWhisperRef Model.Lock Inst.FloatInst.
 Extraction "wtmodel.ml"
   create sync reopen h_update h_update_many h_fetch h_dfetch h_raw h_header series_times
   enc_ts enc_dur enc_val enc_point enc_points enc_series enc_ainfo enc_header
@@ -12,6 +12,6 @@ Extraction "wtmodel.ml"
   parse_duration duration_string parse_timestamp timestamp_string parse_archive_info
   parse_archive_info_list archive_list_string method_of_string method_string flag_method
   fl_flag_xff fl_sub fl_of_int gen_verdict gen_ok q_escape q_unescape parse_query textout_status textout_runs
-  parse_command run_copies run_sum_copies wget copy_one diff_one sum_item sum_copy_item sum_diff_item run_diffs view_cmd view_raw_cmd generate_cmd generate_checked read_file
+  handle_view view_query client_view parse_command run_copies run_sum_copies wget copy_one diff_one sum_item sum_copy_item sum_diff_item run_diffs view_cmd view_raw_cmd generate_cmd generate_checked read_file
   open_image image_handle gw_fetch encode_image counter_final
   flocq_fops.
